@@ -517,8 +517,13 @@ class CrossVersion(UperBase):
             fam = [f for f in fam if f in self.desc]
             for a, b in itertools.permutations(fam, 2):
                 seeds = [(a, rng.next() % 10**9) for _ in range(k)]
-                big = 300 if "Chain" in a or "Msg" in a else 6
-                for n, ty, val, _ in uperlib.gen_values(seeds, "valid", 6, self.h):
+                # addition encodings of 1..300 octets (property quantifier): half of the values are drawn
+                # with list/string lengths up to the constraint's upper bound
+                big = 300 if "Chain" in a or "Msg" in a or "Wrap" in a or "Cho" in a else 6
+                half = len(seeds) // 2
+                vals = uperlib.gen_values(seeds[:half], "valid", 6, self.h) + \
+                    uperlib.gen_values(seeds[half:], "valid", big, self.h)
+                for n, ty, val, _ in vals:
                     reqs.append(f"uper cross {a} {ty} {val} {b} {self.desc[b]} {self.SENTINEL}")
         return reqs
 
